@@ -15,7 +15,7 @@
    No proofs in this file. *)
 From ASV Require Import Base Loc.
 From ASV.C11 Require Import Model.
-From ASV.C11 Require ModelMain.
+From ASV.C11 Require ModelMain ModelTop.
 From ASV.C10 Require Model.
 From Coq Require Import String Ascii.
 Close Scope string_scope.
@@ -311,7 +311,8 @@ Definition rdr_to_json (cur : Z) (r : rdr) : jv :=
 (* fn 7: [j; names; cur] -> regenerate and save again; fn 9 / 19: the bookkeeping of main.run_module
    (C11.ModelMain) and its specification; any other fn: C11.Model.run_C11 *)
 Definition run_C11b (fn : Z) (l : list Z) : list Z :=
-  if fn =? 9 then ModelMain.run_main_level false l
+  if (20 <=? fn) && (fn <=? 22) || (30 <=? fn) && (fn <=? 32) then ModelTop.run_top fn l   (* results file / reuse path *)
+  else if fn =? 9 then ModelMain.run_main_level false l
   else if fn =? 19 then ModelMain.run_main_level true l
   else if fn =? 7 then
     match djv (S (List.length l)) l with
